@@ -11,7 +11,8 @@ RULE = ("cases = (kind of split + parameters, pre/post halo, relativeCoords, spl
         "tree, free fiber | tensor (depth= or rankid=), explicit active range | declared shape | estimated, "
         "optional second split one level down). small scope (seed-independent): every leaf fiber over 4 (quick) / "
         "5 (thorough) coordinates x {absent, explicit default, value} x every step 1..n+1 / every non-empty "
-        "ascending boundary list within 0..n (+ one beyond the shape) / size lists over {1,2,3} up to length 2 (and []) "
+        "ascending boundary list within 0..n (+ one beyond the shape), the boundaries also handed over as a FIBER (every leaf "
+        "fiber over 0..3 x {absent, explicit default, value}; fibers of fibers with empty / all-default sub-fibers) / size lists over {1,2,3} up to length 2 (and []) "
         "x halos 0..2 x several active ranges; all depth-2 trees over 3 root slots x {absent, empty, all-default, two "
         "fibers} at split depth 1; fibers of fibers (d=1) with empty / all-default sub-fibers; re-splits. random: "
         "coordinates up to 12 (quick) / 40 (thorough), negative coordinates with explicit ranges, depth 0-2. "
@@ -67,6 +68,25 @@ def _small_scope(tier):
                 for act in ([1, 3], [0, 2], [2, 6]):
                     i += 1
                     yield _base("nonuniform", t, splits=S, pre=pre, post=post, act=act, rel=bool(i & 1))
+    # --- non-uniform with the boundaries handed over as a FIBER: every leaf fiber over 0..3 x {absent, explicit
+    #     default, value} (its stored coordinates are the boundaries, whatever the payloads), and fibers of
+    #     fibers with empty / all-default sub-fibers
+    bfibs = list(H.all_leaf_fibers(4, [0, 5]))
+    for t in fibs:
+        for bf in bfibs:
+            for pre, post in ((0, 0), (1, 1)):
+                i += 1
+                yield _base("nonuniform", t, splits=[c for c, _ in bf], sfib=bf, sfd=1, pre=pre, post=post,
+                            rel=bool(i & 1))
+    bsubs = [None, [], [[0, 0]], [[0, 5]]]
+    for combo in itertools.product(bsubs, repeat=3):
+        bf = [[c + 1, sub] for c, sub in enumerate(combo) if sub is not None]
+        for t in fibs3:
+            i += 1
+            yield _base("nonuniform", t, splits=[c for c, _ in bf], sfib=bf, sfd=2, post=i % 2)
+            if t:
+                yield _base("nonuniform", t, splits=[c for c, _ in bf], sfib=bf, sfd=2, kind="tensor",
+                            byrank=bool(i & 1))
     # --- equal / unequal in position space
     sizess = [[]] + [list(s) for r in (1, 2) for s in itertools.product((1, 2, 3), repeat=r)] + [[1, 1, 1]]
     for t in fibs:
@@ -138,7 +158,13 @@ def _rand_params(rng, op, n):
     if op == "nonuniform":
         lo, hi = -2, n + 3
         cnt = rng.choice([1, 1, 2, 3, 4])
-        return {"splits": sorted(rng.sample(range(lo, hi), min(cnt, hi - lo)))}
+        sp = sorted(rng.sample(range(lo, hi), min(cnt, hi - lo)))
+        r = rng.random()
+        if r < 0.25:                                  # as a leaf fiber with explicit defaults
+            return {"splits": sp, "sfd": 1, "sfib": [[c, rng.choice([0, 0, 3])] for c in sp]}
+        if r < 0.4:                                   # as a fiber of fibers with empty / all-default sub-fibers
+            return {"splits": sp, "sfd": 2, "sfib": [[c, rng.choice([[], [[0, 0]], [[1, 2]]])] for c in sp]}
+        return {"splits": sp}
     if op == "unequal":
         return {"sizes": [rng.choice([1, 1, 2, 3, 4]) for _ in range(rng.choice([0, 1, 1, 2, 3]))]}
     return {"n": rng.choice([1, 2, 3, 4, 5])}
@@ -230,6 +256,8 @@ def _call(obj, spec, depth, rankid):
     if op == "uniform":
         return obj.splitUniform(spec["step"], **kw)
     if op == "nonuniform":
+        if spec.get("sfib") is not None:           # the boundaries handed over as a Fiber
+            return obj.splitNonUniform(H.build_fiber(spec["sfib"], spec.get("sfd", 1), 0), **kw)
         return obj.splitNonUniform(list(spec["splits"]), **kw)
     if op == "equal":
         return obj.splitEqual(spec["step"], **kw)
@@ -366,7 +394,15 @@ def shrink_candidates(case):
         c = dict(case)
         c["re"] = None
         yield c
+    if case.get("sfib") is not None:
+        for i in range(len(case["sfib"])):
+            c = dict(case)
+            c["sfib"] = case["sfib"][:i] + case["sfib"][i + 1:]
+            c["splits"] = [x for x, _ in c["sfib"]]
+            yield c
     for key in ("splits", "sizes"):
+        if case.get("sfib") is not None and key == "splits":
+            continue
         if key in case and len(case[key]) > (1 if key == "splits" else 0):
             for i in range(len(case[key])):
                 c = dict(case)
